@@ -388,6 +388,8 @@ class EffectClient(Client):
             if v is not None:
                 return v
             return frozenset([TOP])
+        if isinstance(e, ast.Call) and isinstance(e.func, ast.Attribute) and e.func.attr == 'encode' and not e.args:
+            return self.kinds(e.func.value, s)      # the bytes of a PDU are that PDU as far as effects go
         if isinstance(e, ast.Call):
             try:
                 r = self.repo.resolve_expr(e.func, self.mod, self.cls)
@@ -421,6 +423,8 @@ class EffectClient(Client):
                     arg = call.args[0] if call.args else None
                     if isinstance(arg, ast.Call) and isinstance(arg.func, ast.Attribute) and arg.func.attr == 'encode':
                         return [s.add(('send', self.kinds(arg.func.value, s)))]
+                    if arg is not None:
+                        return [s.add(('send', self.kinds(arg, s)))]    # a local holding the encoded PDU
                     return [s.add(('send', frozenset([TOP])))]
                 if meth == 'close':
                     return [s.add(('close',))]
@@ -462,7 +466,8 @@ class EffectClient(Client):
                         (s2.with_(locs=s.locs), e) for s2, e in res['exc'])
                     return outs
             txt = norm(fn)
-            if txt.startswith(NOEFFECT_CALL_PREFIXES) or txt.split('.')[0] in ('logging', 'logger', 'log'):
+            if txt.startswith(NOEFFECT_CALL_PREFIXES) or txt.split('.')[0] in ('logging', 'logger', 'log') \
+                    or self.repo.is_logging_call(call, self.mod):
                 return [s]
             if meth in ('encode', 'format', 'get', 'keys', 'values', 'items') and recv is not None:
                 return [s]
